@@ -101,9 +101,15 @@ def run_engine2(ctx, prefixes, n_quick=3000, n_thorough=40000, ops=40, extra=Non
         _check_outdir(ctx, outdir, mode, prefixes, "E-seq")
 
 
+# stage-1 theorems carried down to the record-level model (Slock/Properties/EngineSimTransfer.lean)
+THEOREMS_SIMTRANSFER = ["Slock.SimP.key_view", "Slock.SimP.transfer_key", "Slock.SimP.C01_counter_transfers", "Slock.SimP.C04_quiescent_transfers",
+                        "Slock.SimP.C17_census_transfers"]
+
+
 def audit_sim(ctx):
     """The stage-2 -> stage-1 simulation theorems proved so far (to be called from c01.py … c06.py / c17.py)."""
-    ctx.lake_build(["Slock.Properties.EngineSim", "Slock.Properties.EngineSimTick", "Slock.Properties.EngineSimRun"])
+    ctx.lake_build(["Slock.Properties.EngineSim", "Slock.Properties.EngineSimTick", "Slock.Properties.EngineSimRun", "Slock.Properties.EngineSimTransfer"])
+    ctx.audit("Slock.Properties.EngineSimTransfer", THEOREMS_SIMTRANSFER)
     ctx.audit("Slock.Properties.EngineSim", THEOREMS_SIM)
     ctx.audit("Slock.Properties.EngineSimTick", THEOREMS_SIMTICK)
     ctx.audit("Slock.Properties.EngineSimRun", THEOREMS_SIMRUN)
